@@ -69,6 +69,8 @@ type Script struct {
 	// with an unbuffered output reads at most one item from an input between two quiescent
 	// points and producers blocked on a small input buffer keep it full at all times.
 	Strict bool `json:"receive_one_at_a_time,omitempty"`
+	// PreCancel (v1): the context is cancelled before the discipline is created; the ops are not executed
+	PreCancel bool `json:"context_cancelled_before_creation,omitempty"`
 	// ErrLate (v2 plain): the consumer does not touch Err() before Output() has been closed
 	ErrLate bool `json:"err_read_only_after_output_closed,omitempty"`
 	// EpiHold: in the epilogue, once the inputs are closed and everything available has
@@ -140,6 +142,7 @@ type InputEvent struct {
 // Trace is everything observed in one run.
 type Trace struct {
 	SpinAfterStop    bool   // spin verdict: Stop()/cancel had been issued
+	SpinAfterTerm    bool   // spin verdict: termination had already been observed
 	SpinAfterFault   bool   // spin verdict: the fault of the plan had been injected
 	HarnessPanic     string // a panic of the harness itself (never blamed on the library)
 	RetriedAfterSpin bool   // first attempt was abandoned (its goroutines may still run)
